@@ -231,7 +231,7 @@ pub fn run_c08(tier: Tier) -> Report {
     let rep = Report::new("C08", "yuv", tier);
     let m = Bt601::new();
     let seed = crate::evidence::seed();
-    let (maxw, maxh) = if tier.thorough() { (320, 48) } else { (160, 24) };
+    let (maxw, maxh) = if tier.thorough() { (512, 64) } else { (160, 24) };
     rep.set_rule(&format!(
         "all widths 1..={maxw} x heights 1..={maxh} x 8 content classes {:?} (+ extras 352x288, 1x1000, 1000x1); all row-equality and column-equality patterns of two luma patterns for shapes <= 6x6; all sequences of three calls over 24 small pictures on one thread (purity); \
          non-trivial = shape whose width is not a multiple of 4 or whose height is odd",
